@@ -505,8 +505,7 @@ func (p *PQL) Execute() {
 		case ruleAction46:
 			p.addVal(text)
 		case ruleAction47:
-			s, _ := strconv.Unquote(text)
-			p.addVal(s)
+			p.addVal(unquote(text))
 		case ruleAction48:
 			p.addVal(text)
 		case ruleAction49:
@@ -3129,7 +3128,7 @@ func (p *PQL) Init() {
 		nil,
 		/* 80 Action46 <- <{ p.addVal(text) }> */
 		nil,
-		/* 81 Action47 <- <{ s, _ := strconv.Unquote(text); p.addVal(s) }> */
+		/* 81 Action47 <- <{ p.addVal(unquote(text)) }> */
 		nil,
 		/* 82 Action48 <- <{ p.addVal(text) }> */
 		nil,
